@@ -6,8 +6,8 @@
    multiplication algorithms, modular inverse, the 10x26 / 8x32 / struct-int128 / asm configurations,
    SHA-256/HMAC/RFC 6979) is tied by the differential correspondence of ./check C05 on a build matrix. *)
 From Coq Require Import ZArith List Bool.
-Require Import Kernel.CSem Kernel.Field5x52 Kernel.Field5x52Sqr Kernel.CtPrimitives Kernel.FieldNormalize Kernel.Scalar4x64 Kernel.ScalarMul512 Kernel.ScalarSqr512 Kernel.ScalarReduce512 Kernel.Scalar8x32Check Kernel.Scalar8x32Mul512 Kernel.Scalar8x32Reduce512 Kernel.Scalar8x32Mul Kernel.FieldPrims Kernel.ScalarMul4x64 Kernel.ScalarMul Kernel.ScalarAdd.
-Require Import Gen.fe_mul_inner Gen.fe_sqr_inner Gen.scalar_cmov Gen.fe_impl_cmov Gen.fe_impl_normalize Gen.scalar_check_overflow Gen.scalar_is_high Gen.scalar_mul_512 Gen.scalar_sqr_512 Gen.scalar_reduce_512 Gen.scalar8x32_mul_512 Gen.scalar8x32_sqr_512 Gen.scalar8x32_check_overflow Gen.scalar8x32_reduce_512 Gen.scalar8x32_mul Gen.scalar8x32_sqr Gen.scalar_mul_512b Gen.scalar_sqr_512b Gen.scalar_mul Gen.scalar_sqr Gen.scalar_add Gen.scalar_half Gen.fe_impl_add Gen.fe_impl_negate_unchecked Gen.fe_impl_half Gen.scalar_negate.
+Require Import Kernel.CSem Kernel.Field5x52 Kernel.Field5x52Sqr Kernel.CtPrimitives Kernel.FieldNormalize Kernel.Scalar4x64 Kernel.ScalarMul512 Kernel.ScalarSqr512 Kernel.ScalarReduce512 Kernel.Scalar8x32Check Kernel.Scalar8x32Mul512 Kernel.Scalar8x32Reduce512 Kernel.Scalar8x32Mul Kernel.FieldPrims Kernel.ScalarMul4x64 Kernel.ScalarMul Kernel.ScalarAdd Kernel.FieldNormalize2.
+Require Import Gen.fe_mul_inner Gen.fe_sqr_inner Gen.scalar_cmov Gen.fe_impl_cmov Gen.fe_impl_normalize Gen.scalar_check_overflow Gen.scalar_is_high Gen.scalar_mul_512 Gen.scalar_sqr_512 Gen.scalar_reduce_512 Gen.scalar8x32_mul_512 Gen.scalar8x32_sqr_512 Gen.scalar8x32_check_overflow Gen.scalar8x32_reduce_512 Gen.scalar8x32_mul Gen.scalar8x32_sqr Gen.scalar_mul_512b Gen.scalar_sqr_512b Gen.scalar_mul Gen.scalar_sqr Gen.scalar_add Gen.scalar_half Gen.fe_impl_normalize_weak Gen.fe_impl_normalizes_to_zero Gen.fe_impl_add Gen.fe_impl_negate_unchecked Gen.fe_impl_half Gen.scalar_negate.
 Import ListNotations.
 Local Open Scope Z_scope.
 
@@ -143,6 +143,19 @@ Theorem scalar8x32_sqr_correct : forall a0 a1 a2 a3 a4 a5 a6 a7,
   scalar8x32_sqr_k a0 a1 a2 a3 a4 a5 a6 a7 Q.
 Proof. exact Kernel.Scalar8x32Mul.scalar8x32_sqr_correct. Qed.
 Print Assumptions scalar8x32_sqr_correct.
+(* Weak normalisation and the zero test of the 5x52 field, for every limb vector of magnitude up to 32 *)
+Theorem fe_normalize_weak_correct : forall r0 r1 r2 r3 r4,
+  0 <= r0 < 2^58 -> 0 <= r1 < 2^58 -> 0 <= r2 < 2^58 -> 0 <= r3 < 2^58 -> 0 <= r4 < 2^54 ->
+  fe_impl_normalize_weak_k r0 r1 r2 r3 r4 (fun t0 t1 t2 t3 t4 =>
+    0 <= t0 < 2^52 /\ 0 <= t1 < 2^52 /\ 0 <= t2 < 2^52 /\ 0 <= t3 < 2^52 /\ 0 <= t4 < 2^48 + 2^7 /\
+    (val5 t0 t1 t2 t3 t4 - val5 r0 r1 r2 r3 r4) mod P256 = 0).
+Proof. exact Kernel.FieldNormalize2.fe_normalize_weak_correct. Qed.
+Print Assumptions fe_normalize_weak_correct.
+Theorem fe_normalizes_to_zero_correct : forall r0 r1 r2 r3 r4,
+  0 <= r0 < 2^58 -> 0 <= r1 < 2^58 -> 0 <= r2 < 2^58 -> 0 <= r3 < 2^58 -> 0 <= r4 < 2^54 ->
+  fe_impl_normalizes_to_zero r0 r1 r2 r3 r4 = if (val5 r0 r1 r2 r3 r4) mod P256 =? 0 then 1 else 0.
+Proof. exact Kernel.FieldNormalize2.fe_normalizes_to_zero_correct. Qed.
+Print Assumptions fe_normalizes_to_zero_correct.
 (* Scalar addition (with the final reduction translated in place) and halving, modulo n, for all reduced operands *)
 Theorem scalar_add_correct : forall a0 a1 a2 a3 b0 b1 b2 b3,
   0 <= a0 < 2^64 -> 0 <= a1 < 2^64 -> 0 <= a2 < 2^64 -> 0 <= a3 < 2^64 ->
